@@ -48,7 +48,7 @@ def r1_for(run, b, sends):
         if not fld:
             continue
         tys = run.facts.lib.types.s(fld[0]["ty"])
-        if tys.startswith("alloc::sync::Arc<std::sync::poison::mutex::Mutex<") or tys.startswith("alloc::sync::Arc<std::sync::poison::rwlock::RwLock<"):
+        if tys.startswith(q.SHARED_LOCK_TYPES):
             shared.append((lc, gl, acq, path, tys))
     sites = [("id-assignment", c) for c in ids] + [("commit(insert_frame)", c) for c in inserts] + [("broadcast" if i == 0 else "broadcast#%d" % (i + 1), c) for i, c in enumerate([send] + [c for c in sends if c is not send and c.body is b])]
     best = None
